@@ -98,3 +98,76 @@ theorem solution_unique {α} (sem : Op → List α → α) (ops : List Op) (hw :
       rw [this]; simp [execOpG, upd, hxo]
 
 end KV.Sig
+
+namespace KV.Sig
+/-! ### generalisation with a scratch ("junk") signal that several ops may write and nobody reads -/
+
+def RelJ (J : Nat → Bool) (o p : Op) : Prop := (J o.out = false → p.out ≠ o.out) ∧ ∀ x ∈ o.ins, p.out ≠ x
+def LocalJ (J : Nat → Bool) (o : Op) : Prop := ∀ x ∈ o.ins, J x = false ∧ x ≠ o.out
+/-- every op is followed only by ops that neither rewrite its (non-scratch) output nor write one of its operands;
+    no op reads the scratch signal or its own output -/
+def WOJ (J : Nat → Bool) (ops : List Op) : Prop := ops.Pairwise (RelJ J) ∧ ∀ o ∈ ops, LocalJ J o
+
+theorem WOJ.tail {J} {o : Op} {rest : List Op} (h : WOJ J (o :: rest)) : WOJ J rest :=
+  ⟨(List.pairwise_cons.mp h.1).2, fun p hp => h.2 p (List.mem_cons_of_mem _ hp)⟩
+
+theorem execG_solvesJ {α} (J : Nat → Bool) (sem : Op → List α → α) (ops : List Op) (hw : WOJ J ops) (env : Nat → α) :
+    ∀ o ∈ ops, J o.out = false → execG sem ops env o.out = sem o (o.ins.map (execG sem ops env)) := by
+  induction ops generalizing env with
+  | nil => intro o ho; cases ho
+  | cons p rest ih =>
+    intro o ho hj
+    have hcons : execG sem (p :: rest) env = execG sem rest (execOpG sem env p) := rfl
+    have hrel := (List.pairwise_cons.mp hw.1).1
+    rcases List.mem_cons.mp ho with rfl | hmem
+    · have hloc := hw.2 o List.mem_cons_self
+      rw [hcons, execG_frame sem rest _ o.out (fun q hq => (hrel q hq).1 hj)]
+      have hargs : o.ins.map (execG sem rest (execOpG sem env o)) = o.ins.map env := by
+        apply List.map_congr_left
+        intro x hx
+        rw [execG_frame sem rest _ x (fun q hq => (hrel q hq).2 x hx)]
+        simp [execOpG, upd, (hloc x hx).2]
+      rw [hargs]
+      simp [execOpG, upd]
+    · rw [hcons]; exact ih hw.tail _ o hmem hj
+
+def SolvesJ {α} (J : Nat → Bool) (sem : Op → List α → α) (ops : List Op) (env val : Nat → α) : Prop :=
+  (∀ x, J x = false → (∀ p ∈ ops, p.out ≠ x) → val x = env x) ∧
+  (∀ o ∈ ops, J o.out = false → val o.out = sem o (o.ins.map val))
+
+theorem solution_uniqueJ {α} (J : Nat → Bool) (sem : Op → List α → α) (ops : List Op) (hw : WOJ J ops) (env val : Nat → α)
+    (hs : SolvesJ J sem ops env val) : ∀ x, J x = false → val x = execG sem ops env x := by
+  induction ops generalizing env with
+  | nil => intro x hj; exact hs.1 x hj (by intro p hp; cases hp)
+  | cons o rest ih =>
+    have hcons : execG sem (o :: rest) env = execG sem rest (execOpG sem env o) := rfl
+    have hrel := (List.pairwise_cons.mp hw.1).1
+    have hloc := hw.2 o List.mem_cons_self
+    rw [hcons]
+    apply ih hw.tail
+    refine ⟨?_, fun p hp hj => hs.2 p (List.mem_cons_of_mem _ hp) hj⟩
+    intro x hj hx
+    by_cases hxo : x = o.out
+    · subst hxo
+      have heq := hs.2 o List.mem_cons_self hj
+      have hargs : o.ins.map val = o.ins.map env := by
+        apply List.map_congr_left
+        intro y hy
+        apply hs.1 y (hloc y hy).1
+        intro p hp
+        rcases List.mem_cons.mp hp with rfl | hp
+        · exact fun h => (hloc y hy).2 h.symm
+        · exact (hrel p hp).2 y hy
+      rw [heq, hargs]; simp [execOpG, upd]
+    · have : val x = env x := hs.1 x hj (by
+        intro p hp
+        rcases List.mem_cons.mp hp with rfl | hp
+        · exact fun h => hxo h.symm
+        · exact hx p hp)
+      rw [this]; simp [execOpG, upd, hxo]
+
+theorem execG_solution {α} (J : Nat → Bool) (sem : Op → List α → α) (ops : List Op) (hw : WOJ J ops) (env : Nat → α) :
+    SolvesJ J sem ops env (execG sem ops env) :=
+  ⟨fun x _ hx => execG_frame sem ops env x hx, execG_solvesJ J sem ops hw env⟩
+
+end KV.Sig
